@@ -4,7 +4,6 @@ import (
 	"encoding/json"
 	"fmt"
 	"math"
-	"reflect"
 	"sort"
 	"time"
 
@@ -17,7 +16,9 @@ import (
 // decided even when a marshaller is lossy in an idempotent way. Identified on purpose, because the two output
 // formats spell them differently and the property does not distinguish them: nil / empty containers, an
 // integral float and the int (JSON has one number type), a timestamp and its RFC 3339 text (JSON has no
-// timestamps), and a `skip` that encoding/json's omitempty drops (false, 0, "").
+// timestamps), and a `skip` that is false with one that is absent (both mean: do not skip). Every other skip
+// value - the empty string, zero, an empty container included - means "skip" (ShouldSkip) and is a value like any
+// other.
 
 func projAny(v any) any {
 	switch t := v.(type) {
@@ -99,27 +100,8 @@ func projAny(v any) any {
 }
 
 func projSkip(v any) any {
-	if v == nil {
+	if b, ok := v.(bool); ok && !b {
 		return nil
-	}
-	rv := reflect.ValueOf(v)
-	switch rv.Kind() {
-	case reflect.Bool:
-		if !rv.Bool() {
-			return nil
-		}
-	case reflect.Int, reflect.Int64:
-		if rv.Int() == 0 {
-			return nil
-		}
-	case reflect.Float64:
-		if rv.Float() == 0 {
-			return nil
-		}
-	case reflect.String:
-		if rv.Len() == 0 {
-			return nil
-		}
 	}
 	return projAny(v)
 }
